@@ -258,6 +258,14 @@ func Solicit6(mac []byte, xid [3]byte, iapd, iana bool, hint string) []byte {
 // matter what an earlier datagram left behind in a recycled receive buffer.
 func noEnd(d []byte) []byte { return d[:len(d)-1] }
 
+// Relayed6 wraps a client message in one Relay-Forward layer of the given relay agent.
+func Relayed6(inner []byte, link, peer, ifid string) []byte {
+	l := pkt.Relay6{Type: 12, Inner: inner, Opts: []pkt.Opt6{{Code: 18, Data: []byte(ifid)}}}
+	copy(l.Link[:], net.ParseIP(link).To16())
+	copy(l.Peer[:], net.ParseIP(peer).To16())
+	return l.Bytes()
+}
+
 // Solicit6x builds a SOLICIT with two IA_PDs (hint "" = none).
 func Solicit6x(mac []byte, xid [3]byte, hint1, hint2 string) []byte {
 	m := pkt.Msg6{Type: 1, Xid: xid}
@@ -284,11 +292,21 @@ func (e *env) summarise() (string, []sched.Viol) {
 	var viols []sched.Viol
 	var parts []string
 	byXid := map[string][]byte{}
+	xid6 := func(d []byte) string {
+		// the transaction id of a (possibly relayed) DHCPv6 datagram is that of the client message
+		if p, err := pkt.Parse6(d); err == nil && p.Msg != nil {
+			return fmt.Sprintf("%x", p.Msg.Xid)
+		}
+		if len(d) >= 4 {
+			return fmt.Sprintf("%x", d[1:4])
+		}
+		return ""
+	}
 	for _, d := range e.spec.Dgrams {
 		if e.spec.Proto == 4 {
 			byXid[fmt.Sprintf("%x", d[4:8])] = d
 		} else {
-			byXid[fmt.Sprintf("%x", d[1:4])] = d
+			byXid[xid6(d)] = d
 		}
 	}
 	asked := map[string]int{} // requests per transaction id (a retransmission repeats it)
@@ -296,7 +314,7 @@ func (e *env) summarise() (string, []sched.Viol) {
 		if e.spec.Proto == 4 && len(d) >= 8 {
 			asked[fmt.Sprintf("%08x", d[4:8])]++
 		} else if e.spec.Proto == 6 && len(d) >= 4 {
-			asked[fmt.Sprintf("%x", d[1:4])]++
+			asked[xid6(d)]++
 		}
 	}
 	seen := map[string]int{}
@@ -346,6 +364,19 @@ func (e *env) summarise() (string, []sched.Viol) {
 				continue
 			}
 			req, _ := pkt.Parse6(reqB)
+			// a relayed request is answered through the same relay layers (link-address,
+			// peer-address, Interface-ID mirrored per layer) - its own, not another datagram's
+			if len(req.Layers) != len(rep.Layers) {
+				viols = append(viols, sched.Viol{Sig: "reply-relay-layers", What: fmt.Sprintf("reply xid %s has %d relay layers, its request %d", xid, len(rep.Layers), len(req.Layers))})
+			} else {
+				for li := range req.Layers {
+					qi, _ := pkt.Get6(req.Layers[li].Opts, 18)
+					pi, _ := pkt.Get6(rep.Layers[li].Opts, 18)
+					if req.Layers[li].Link != rep.Layers[li].Link || req.Layers[li].Peer != rep.Layers[li].Peer || !bytes.Equal(qi, pi) {
+						viols = append(viols, sched.Viol{Sig: "reply-mixed-up", What: fmt.Sprintf("reply xid %s, relay layer %d: link %v peer %v interface-id %q; its request had link %v peer %v interface-id %q", xid, li, net.IP(rep.Layers[li].Link[:]), net.IP(rep.Layers[li].Peer[:]), pi, net.IP(req.Layers[li].Link[:]), net.IP(req.Layers[li].Peer[:]), qi)})
+					}
+				}
+			}
 			qc, _ := pkt.Get6(req.Msg.Opts, 1)
 			pc, _ := pkt.Get6(rep.Msg.Opts, 1)
 			if !bytes.Equal(qc, pc) {
@@ -620,6 +651,7 @@ func Specs(thorough bool) []Spec {
 		{Name: "v4/S5b-truncated-datagram-after-a-longer-one", Proto: 4, Blocks: 4, Dgrams: [][]byte{Discover4(a, 0x1601, []byte{6, 1, 3, 15, 42, 51, 54}), noEnd(Discover4(b, 0x1602, nil)), noEnd(Request4(c, 0x1603, []byte{6}))}},
 		{Name: "v4/S1d-retransmission-identical-datagram-twice", Proto: 4, Blocks: 2, Dgrams: [][]byte{Discover4(a, 0x1601, []byte{6}), Discover4(a, 0x1601, []byte{6})}},
 		{Name: "v6/S1d-retransmission-identical-datagram-twice", Proto: 6, Blocks: 2, Dgrams: [][]byte{Solicit6(a, x(1), true, false, ""), Solicit6(a, x(1), true, false, "")}},
+		{Name: "v6/S5c-two-relayed-solicits-through-different-relay-agents", Proto: 6, Blocks: 4, Dgrams: [][]byte{Relayed6(Solicit6(a, x(1), true, true, ""), "2001:db8:a::1", "fe80::a", "relay-a/port-1"), Relayed6(Solicit6(b, x(2), true, false, ""), "2001:db8:b::1", "fe80::b", "relay-b/port-22")}},
 		{Name: "v6/S1-same-client-two-solicits", Proto: 6, Blocks: 2, Dgrams: [][]byte{Solicit6(a, x(1), true, false, ""), Solicit6(a, x(2), true, false, "")}},
 		{Name: "v6/S1b-same-client-two-IA_PDs-each", Proto: 6, Blocks: 8, Dgrams: [][]byte{Solicit6x(a, x(1), "2001:db8:0:15::/64", "2001:db8:0:16::/64"), Solicit6x(a, x(2), "2001:db8:0:11::/64", "")}},
 		{Name: "v6/S1c-same-client-two-hintless-IA_PDs+new-hint", Proto: 6, Blocks: 8, Dgrams: [][]byte{Solicit6x(a, x(1), "", ""), Solicit6(a, x(2), true, false, "2001:db8:0:13::/64")}},
